@@ -404,6 +404,9 @@ def shards(tier, seed):
     out = [{'what': 'segment', 'shape': n, 'rot': r} for n in list(AB.LINES) + list(AB.QUADS) + list(AB.CUBICS) for r in rots]
     out += [{'what': 'path', 'word': list(w)} for w in PATHS]
     out.append({'what': 'special'})
+    # drawing regimes (both tiers): tiny, huge, ordinary size far from the origin
+    out += [{'what': 'segment', 'shape': n, 'rot': 0, 'scale': sc, 'shift': sh, 'lattice_n': 4}
+            for n in list(AB.LINES) + list(AB.QUADS) + list(AB.CUBICS) for sc, sh in ((1e-9, 0j), (1e9, 0j), (1.0, 1.0e6 + 1.0e6j), (1e-4, 1.0e6 + 1.0e6j))]
     out += AB.provenance_shards(out, tier, lambda d: d['what'] == 'segment' and d['rot'] in (0, 37) and 'scale' not in d)
     out += AB.provenance_shards(out, 'thorough', lambda d: d['what'] == 'path', key='pprov')       # cheap: every history in both tiers
     out += AB.provenance_shards(out, tier, lambda d: d['what'] == 'long' and d['n'] in (3, 33, 64), key='pprov')
